@@ -178,6 +178,26 @@ def specReply {Reply} (mkReply : CfgView → Req → Reply) (mkInvalid : CfgView
   | .valid r => if !r.hasJsonrpc && sv.version ≥ 20 then mkReply { sv with version := 10 } r else mkReply sv r
   | .invalid p => mkInvalid sv p
 
+/-- Which configuration every reply-building call of the dispatcher is handed in this model, by function of
+    SimpleJSONRPCServer.py (sorted, de-duplicated `(function, callee, source)`):
+      * `request` — the per-request configuration `config` (`serveEntry`: the argument of `mkReply` is the view
+        through the copy, or the server's own view when no adaptation is needed): every `Fault(…)` and the
+        `jsonrpclib.dump(…)` of `_marshaled_single_dispatch`, `_dispatch`, `_method_exception_fault`;
+      * `server` — the server's own configuration (`serveEntries`, case `.invalid`: the argument of `mkInvalid`):
+        body-level and validation faults of `_marshaled_dispatch`, `_safe_jdumps`, `_unmarshaled_dispatch`,
+        `validate_request`, and the 500 reply of `do_POST`.
+    The extractor reads the same table from the source (`Generated.replyConfigSites`, companion theorem in C13Gen). -/
+def replySites : List (String × String × String) := [
+  ("SimpleJSONRPCDispatcher._dispatch", "Fault", "request"),
+  ("SimpleJSONRPCDispatcher._marshaled_dispatch", "Fault", "server"),
+  ("SimpleJSONRPCDispatcher._marshaled_single_dispatch", "Fault", "request"),
+  ("SimpleJSONRPCDispatcher._marshaled_single_dispatch", "dump", "request"),
+  ("SimpleJSONRPCDispatcher._method_exception_fault", "Fault", "request"),
+  ("SimpleJSONRPCDispatcher._safe_jdumps", "Fault", "server"),
+  ("SimpleJSONRPCDispatcher._unmarshaled_dispatch", "Fault", "server"),
+  ("SimpleJSONRPCRequestHandler.do_POST", "Fault", "server"),
+  ("validate_request", "Fault", "server")]
+
 /-- The form (1.0 or 2.0 envelope) is decided by the version of the per-request configuration. -/
 def formOf (v : CfgView) : Nat := if v.version ≥ 20 then 20 else 10
 
